@@ -1,5 +1,6 @@
 import PyYetiVerif.Lemmas.Rainflow
 import PyYetiVerif.Lemmas.Astm
+import PyYetiVerif.Lemmas.RainflowMax
 import Mathlib.Algebra.Order.Ring.Abs
 import Mathlib.Algebra.Order.Field.Basic
 import Mathlib.Tactic.Ring
@@ -94,7 +95,24 @@ theorem scale (k : α) (hk : 0 < k) (pts : List α) :
   · intro a b c d; exact mul_lt_mul_iff_right₀ hk
   · intro a b; ring
 
+/-- "The largest range is always counted": for true reversal points (length ≥ 2, every interior
+point a strict local extremum, `Alt`) some row of the table has the overall range of the input —
+it is at least every |x − y|, and by `cycle_values_abs` it is itself such a difference. -/
+theorem largest_range_counted (pts : List α) (hl : 2 ≤ pts.length) (hA : Alt pts) :
+    ∃ c ∈ rainflow pts, ∀ x ∈ pts, ∀ y ∈ pts, |x - y| ≤ c.rng := by
+  obtain ⟨row, hrow, hmax⟩ := largest_range1 pts hl hA
+  rw [rainflow1_eq] at hrow
+  obtain ⟨c, hc, rfl⟩ := List.mem_map.mp hrow
+  exact ⟨c, hc, hmax⟩
+
 end field
+
+/-- the reversal hypothesis is necessary: `[0, 1, 2]` has overall range 2 and two rows of range 1 -/
+theorem largest_range_needs_reversals :
+    ¬ ∃ c ∈ rainflow ([0, 1, 2] : List Int), c.rng = 2 := by decide +kernel
+
+example : Alt ([-2, 1, -3, 5, -1, 3, -4, 4, -2] : List ℚ) := by
+  simp only [Alt, Turn]; norm_num
 
 /-! ### non-vacuity: the ASTM E1049 example -/
 
